@@ -231,7 +231,7 @@ struct World {
     std::vector<std::string> trace; // directory listings per op (replay mode)
     bool verbose = false;
     unsigned long long stateHash = 0;
-    long rotations = 0, removals = 0, gzChecked = 0;
+    long rotations = 0, removals = 0, gzChecked = 0, gzSeen = 0;
     bool faultMode = false; // under crash/fault injection some oracles (C07, strict C05 equality) do not apply
 
     void violate(const std::string &key, const std::string &what) { viols.push_back({ key, what }); }
@@ -295,24 +295,25 @@ struct World {
             std::string nm = c.path.substr(c.path.rfind('/') + 1);
             if (!strcmp(c.name, "unlink")) {
                 Scheme s = parseScheme(nm, cfg.shape);
-                if (!s.ok) violate("C06:unlink-foreign", "unlink of '" + nm + "', which does not follow this sink's rotated-name scheme");
+                auto slurp = [](const std::string &p, std::string &out) { FILE *f = fopen(p.c_str(), "rb"); if (!f) return false; char b[65536]; size_t n; out.clear(); while ((n = fread(b, 1, sizeof b, f)) > 0) out.append(b, n); fclose(f); return true; };
+                if (c.path == path) {
+                    // Qt's QFile::rename falls back to copy + remove when the rename system call fails: legal iff a rotated file holds the same bytes
+                    std::string mine, other; bool copied = false;
+                    slurp(c.path, mine);
+                    for (auto &e : snapshot(dir)) if (parseScheme(e.name, cfg.shape).ok && e.bytes == mine) copied = true;
+                    // (after an injected rename failure Qt unlinks the source while the copy is still in its write buffer: the data
+                    // is then checked by the stream oracle once the operation has finished)
+                    if (!copied && !(faultMode && vdev::failed)) violate("C10:active-deleted", "unlink of the active file '" + nm + "' although no rotated file holds its content");
+                } else if (!s.ok) violate("C06:unlink-foreign", "unlink of '" + nm + "', which does not follow this sink's rotated-name scheme");
                 else {
                     // legal: (a) the plain original whose complete, valid .gz exists; (b) an oldest rotated file while more than N-1 exist
-                    bool legal = false;
-                    std::string gzp = c.path + ".gz";
+                    bool legalA = false, gzExists = false;
+                    std::string why;
                     if (!s.gz) {
-                        FILE *f = fopen(gzp.c_str(), "rb"), *g = fopen(c.path.c_str(), "rb");
-                        if (f && g) {
-                            std::string z, o, plain, why; char b[65536]; size_t n;
-                            while ((n = fread(b, 1, sizeof b, f)) > 0) z.append(b, n);
-                            while ((n = fread(b, 1, sizeof b, g)) > 0) plain.append(b, n);
-                            if (gunzipStrict(z, o, why) && o == plain) legal = true;
-                            else violate("C08:remove-before-complete", "unlink of '" + nm + "' while its .gz is not a complete valid gzip of it (" + why + ")");
-                        }
-                        if (f) fclose(f);
-                        if (g) fclose(g);
+                        std::string z, o, plain;
+                        if (slurp(c.path + ".gz", z) && slurp(c.path, plain)) { gzExists = true; legalA = gunzipStrict(z, o, why) && o == plain; if (legalA) why.clear(); else if (why.empty()) why = "content differs"; }
                     }
-                    if (!legal) {
+                    if (!legalA) {
                         auto snap = snapshot(dir);
                         int count = 0; bool older = false;
                         for (auto &e : snap) {
@@ -321,9 +322,13 @@ struct World {
                             count++;
                             if (t.date < s.date || (t.date == s.date && t.index < s.index)) older = true;
                         }
-                        if (cfg.N <= 0) violate("C06:delete-unlimited", "unlink of rotated '" + nm + "' although the file-count limit is " + std::to_string(cfg.N) + " (keep everything)");
-                        else if (count <= cfg.N - 1) violate("C10:delete-within-limit", "unlink of rotated '" + nm + "' while only " + std::to_string(count) + " rotated files exist (limit " + std::to_string(cfg.N) + ")");
-                        else if (older) violate("C06:not-oldest", "unlink of rotated '" + nm + "' while an older rotated file still exists");
+                        bool legalB = cfg.N > 0 && count > cfg.N - 1 && !older;
+                        if (!legalB) {
+                            if (gzExists) violate("C08:remove-before-complete", "unlink of '" + nm + "' while its .gz is not a complete valid gzip of it (" + why + ")");
+                            else if (cfg.N <= 0) violate("C06:delete-unlimited", "unlink of rotated '" + nm + "' although the file-count limit is " + std::to_string(cfg.N) + " (keep everything)");
+                            else if (count <= cfg.N - 1) violate("C10:delete-within-limit", "unlink of rotated '" + nm + "' while only " + std::to_string(count) + " rotated files exist (limit " + std::to_string(cfg.N) + ")");
+                            else violate("C06:not-oldest", "unlink of rotated '" + nm + "' while an older rotated file still exists");
+                        }
                         removals++;
                     }
                 }
@@ -345,6 +350,23 @@ struct World {
             }
             vdev::active = was;
         };
+    }
+
+    // A rotated file can be produced AND removed by retention within one operation (two rotations in one send), so that no snapshot ever
+    // sees it. If the next file does not continue the stream at `start` but does at a later record boundary, and retention is active,
+    // the gap is booked as a phantom file that retention removed (the legality of each unlink is the monitor's business).
+    size_t realign(size_t start, const std::string &content)
+    {
+        if (cfg.N < 2 || content.empty()) return start;
+        if (start + content.size() <= full.size() && full.compare(start, content.size(), content) == 0) return start;
+        for (size_t b : recEnd) {
+            if (b <= start || b + content.size() > full.size()) continue;
+            if (full.compare(b, content.size(), content) == 0) {
+                rot.push_back({ "(unseen, removed by retention)", rot.empty() ? std::string("0000-00-00") : rot.back().date, 0, full.substr(start, b - start), start, b, false, opNo, false });
+                return b;
+            }
+        }
+        return start;
     }
 
     // ---- the oracles, evaluated on a directory snapshot. final = the sink has been destroyed (everything flushed)
@@ -391,6 +413,7 @@ struct World {
             std::string content, why;
             Seen &se = it->second;
             if (se.plain && se.gz && !faultMode) violate("C05:duplicate-file", "both " + r.identity + " and its .gz exist: reading the rotated files yields its records twice");
+            if (se.gz) gzSeen++;
             if (se.plain) content = se.plainBytes;
             else if (!gunzipStrict(se.gzBytes, content, why)) {
                 // after a crash a partial .gz can sit next to the intact plain file; if retention later removes the plain one (legality is the
@@ -410,16 +433,17 @@ struct World {
             if (!known) fresh.push_back(&kv.second);
         }
         std::sort(fresh.begin(), fresh.end(), [](Seen *a, Seen *b) { return a->s.date != b->s.date ? a->s.date < b->s.date : a->s.index < b->s.index; });
-        if (fresh.size() > 1 && !faultMode) violate("C05:two-rotations", "more than one rotated file appeared during one operation");
         for (Seen *se : fresh) {
             std::string content, why;
             if (cfg.N == 1) violate("C06:rotated-with-N1", "rotated file " + se->s.identity + " produced although the file-count limit is 1");
             if (se->plain && se->gz && !faultMode) violate("C05:duplicate-file", "both " + se->s.identity + " and its .gz exist");
+            if (se->gz) gzSeen++;
             if (se->plain) content = se->plainBytes;
             else if (!gunzipStrict(se->gzBytes, content, why)) { violate("C08:invalid-gzip", se->s.identity + ".gz is not a valid gzip stream: " + why); content.clear(); }
             else gzChecked++;
             if (se->gz != cfg.compress() && !faultMode) violate("C08:compression-option", std::string("rotated file ") + se->s.identity + (se->gz ? " is compressed although compression is off" : " is not compressed although compression is on"));
             size_t start = rot.empty() ? 0 : rot.back().end;
+            start = realign(start, content);
             RotFile r { se->s.identity, se->s.date, se->s.index, content, start, start + content.size(), true, opNo, se->gz };
             if (everNames.count(r.identity)) violate("C09:name-reused", "rotated name " + r.identity + " was used before");
             everNames.insert(r.identity);
@@ -433,6 +457,7 @@ struct World {
         }
         // active file
         size_t astart = rot.empty() ? 0 : rot.back().end;
+        if (!act.empty()) astart = realign(astart, act);
         if (!haveActive) { if (!faultMode) violate("C05:no-active", "the active log file does not exist"); }
         std::string expect = astart <= full.size() ? full.substr(astart) : std::string();
         if (act.size() > expect.size() || expect.compare(0, act.size(), act) != 0)
@@ -484,7 +509,7 @@ struct World {
 };
 
 // ------------------------------------------------------------------------------------------------ history runner
-struct RunResult { std::vector<Viol> viols; std::vector<unsigned long long> hashes; long rotations = 0, removals = 0, gz = 0; std::vector<std::string> trace; };
+struct RunResult { std::vector<Viol> viols; std::vector<unsigned long long> hashes; long rotations = 0, removals = 0, gz = 0, gzSeen = 0; std::vector<std::string> trace; };
 
 std::string g_dir;
 
@@ -524,7 +549,7 @@ RunResult runHistory(const Config &cfg, const std::vector<Op> &h, const std::vec
         w.check(true);
         rr.hashes.push_back(w.stateHash);
         g_lastClean = w.viols.empty(); g_lastShape = cfg.shape;
-        rr.viols = w.viols; rr.rotations = w.rotations; rr.removals = w.removals; rr.gz = w.gzChecked; rr.trace = w.trace;
+        rr.viols = w.viols; rr.rotations = w.rotations; rr.removals = w.removals; rr.gz = w.gzChecked; rr.gzSeen = w.gzSeen; rr.trace = w.trace;
         vdev::preMutate = nullptr;
     }
     vdev::active = false;
@@ -588,7 +613,7 @@ void modeHist(const std::vector<Config> &cfgs, int depth, int maxDay, int shard,
                     sum.cases++;
                     sum.transitions += (long long)h.size() + 1;
                     for (auto x : rr.hashes) states.insert(x);
-                    sum.counters["rotations"] += rr.rotations; sum.counters["retention_removals"] += rr.removals; sum.counters["gzip_files_decoded"] += rr.gz;
+                    sum.counters["rotations"] += rr.rotations; sum.counters["retention_removals"] += rr.removals; sum.counters["gzip_files_decoded"] += rr.gz; sum.counters["gzip_files_seen"] += rr.gzSeen;
                     if (rr.rotations) sum.counters["histories_with_rotation"]++;
                     std::string hs = histStr(h, wk);
                     for (auto &v : rr.viols) addViol(sum, cfg, hs, v, "hist");
@@ -682,8 +707,8 @@ void modeGz(const std::vector<long> &sizes, int gens, int shard, int nshards, bo
         w.opNo++; w.writeText(QStringLiteral("next")); w.check(false);
         w.closeSink(); w.opNo++; w.check(true);
         sum.cases++; sum.transitions += 3;
-        sum.counters["gzip_files_decoded"] += w.gzChecked; sum.counters["rotations"] += w.rotations;
-        if (w.gzChecked < 1) w.violate("C08:no-gzip", "no compressed rotated file was produced");
+        sum.counters["gzip_files_decoded"] += w.gzChecked; sum.counters["gzip_files_seen"] += w.gzSeen; sum.counters["rotations"] += w.rotations;
+        if (w.gzSeen < 1) w.violate("C08:no-gzip", "no compressed rotated file was produced");
         for (auto &v : w.viols) addViol(sum, cfg, label, v, "gz");
         sum.outcomes.insert(label.substr(0, label.find(' ')));
         if (sum.samples.size() < 3) sum.sample("{\"case\":" + vx::jstr(label) + ",\"gz_valid\":" + (w.viols.empty() ? "true" : "false") + "}");
@@ -704,7 +729,7 @@ void modeGz(const std::vector<long> &sizes, int gens, int shard, int nshards, bo
 // All oracles are evaluated INSIDE the child that runs the history, with its model: at the crash instant (hook called right before
 // _exit, so the directory is exactly what a killed process leaves behind — user-space buffers are lost), after a faulted operation,
 // and after a restart. Results come back through a shared page.
-struct Shared { long mutCount; int failedFlag; int nCalls; char calls[400][72]; int nViol; char viol[12][480]; long rotFiles; int done; };
+struct Shared { long mutCount; int failedFlag; int nCalls; char calls[400][72]; int nViol; char viol[12][480]; long rotFiles; int done; long long nowMs; unsigned long long stateHash; int nTimes; char tname[48][64]; long long tms[48]; };
 Shared *g_sh = nullptr;
 World *g_world = nullptr;
 
@@ -733,7 +758,23 @@ void reachedOracle(World &w, long reached)
     if (have != reached)
         w.violate("C10:reached-lost", std::to_string(reached) + " bytes had reached the log files, " + std::to_string(have) + " are accounted for by intact files (+ files removed by retention)");
 }
-long g_reached = 0;
+// the virtual clock and the virtual modification times survive the "reboot": hand them to the next process
+void exportTimes(const std::string &dir)
+{
+    g_sh->nowMs = vdev::nowMs;
+    vdev::active = false;
+    int nt = 0;
+    for (auto &e : snapshot(dir)) {
+        struct stat st;
+        if (nt < 48 && ::stat((dir + "/" + e.name).c_str(), &st) == 0) {
+            auto it = vdev::vmtime.find(st.st_ino);
+            snprintf(g_sh->tname[nt], 64, "%s", e.name.c_str());
+            g_sh->tms[nt] = it == vdev::vmtime.end() ? T0 - 86400000LL * 9000 : it->second;
+            nt++;
+        }
+    }
+    g_sh->nTimes = nt;
+}
 
 void followUpWrites(World &w, const Config &cfg)
 {
@@ -772,7 +813,9 @@ void childRun(const Config &cfg, const std::vector<Op> &h, const Op &fin, const 
         reachedOracle(w, reached);
         g_sh->mutCount = vdev::mutCount;
         g_sh->rotFiles = (long)w.rot.size();
+        g_sh->stateHash = w.stateHash;
         exportViols(w);
+        exportTimes(w.dir);
         g_sh->done = 1;
     };
     w.apply(fin, wk);
@@ -792,12 +835,15 @@ void childRun(const Config &cfg, const std::vector<Op> &h, const Op &fin, const 
 }
 
 // a fresh process finds the directory a crash left behind: adopt it as the model's starting point, then log on
-void childRestart(const Config &cfg, const std::string &dir)
+struct RestartInfo { long long nowMs; std::vector<std::pair<std::string, long long>> times; };
+
+void childRestart(const Config &cfg, const std::string &dir, const RestartInfo &ri, int laterDays)
 {
     static World w;
     w.faultMode = true;
     w.cfg = cfg; w.dir = dir; w.path = dir + "/" + SHAPE_NAME[cfg.shape];
-    vdev::root = dir; vdev::nowMs = T0 + 86400000LL * 4 + 3600000; vdev::vmtime.clear(); vdev::fdPath.clear();
+    vdev::root = dir; vdev::nowMs = ri.nowMs + 60000 + 86400000LL * laterDays; vdev::vmtime.clear(); vdev::fdPath.clear();
+    for (auto &t : ri.times) { struct stat st; if (::stat((dir + "/" + t.first).c_str(), &st) == 0) vdev::vmtime[st.st_ino] = t.second; }
     if (cfg.decoys) for (auto &n : decoysFor(cfg.shape)) w.decoys[n] = "decoy:" + n + "\n";
     {
         auto snap = snapshot(dir);
@@ -833,6 +879,7 @@ void childRestart(const Config &cfg, const std::string &dir)
     w.open();
     followUpWrites(w, cfg);
     exportViols(w);
+    exportTimes(dir);
     g_sh->done = 1;
     _exit(0);
 }
@@ -846,7 +893,7 @@ void modeCrash(const std::vector<Config> &cfgs, int depth, int shard, int nshard
         memset(g_sh, 0, sizeof *g_sh);
         fflush(stdout); fflush(stderr);
         pid_t p = fork();
-        if (p == 0) { int dn = ::open("/dev/null", O_WRONLY); if (dn >= 0) dup2(dn, 2); body(); _exit(0); }
+        if (p == 0) { if (!getenv("VFS_DEBUG")) { int dn = ::open("/dev/null", O_WRONLY); if (dn >= 0) dup2(dn, 2); } body(); _exit(0); }
         int st = 0; waitpid(p, &st, 0);
         if (!WIFEXITED(st) || WEXITSTATUS(st) != 0 || !g_sh->done) { fprintf(stderr, "ENGINE: child failed (status %d, done %d)\n", st, g_sh->done); exit(3); }
     };
@@ -907,10 +954,18 @@ void modeCrash(const std::vector<Config> &cfgs, int depth, int shard, int nshard
                     std::string at = hs + " : crash before call " + std::to_string(k) + "/" + std::to_string(M) + " (" + calls[k - 1] + ")";
                     std::string extra = ",\"crash_at\":" + std::to_string(k);
                     collect(cfg, at, "crash", extra);
-                    crashSigs.insert(calls[k - 1].substr(0, calls[k - 1].find(' ')) + "/" + std::to_string(g_sh->rotFiles) + "/" + cfg.str().substr(cfg.str().find("opts")));
-                    forkDo([&] { childRestart(cfg, g_dir); });
-                    sum.transitions += 4; sum.counters["restarts_after_crash"]++;
-                    collect(cfg, at + ", then restart + 3 writes", "restart", extra);
+                    crashSigs.insert(std::to_string(g_sh->stateHash)); // distinct directory states left behind by a crash
+                    sum.outcomes.insert(calls[k - 1].substr(0, calls[k - 1].find(' ')) + "/" + std::to_string(g_sh->rotFiles) + "/" + cfg.str().substr(cfg.str().find("opts")));
+                    RestartInfo ri;
+                    auto importTimes = [&] { ri.nowMs = g_sh->nowMs; ri.times.clear(); for (int i = 0; i < g_sh->nTimes; i++) ri.times.push_back({ g_sh->tname[i], g_sh->tms[i] }); };
+                    importTimes();
+                    // restart the same day and the next day; the second restart runs on the directory the first one left (a longer history)
+                    for (int later = 0; later < 2; later++) {
+                        forkDo([&] { childRestart(cfg, g_dir, ri, later); });
+                        sum.transitions += 4; sum.counters["restarts_after_crash"]++;
+                        collect(cfg, at + (later ? ", then restart + 3 writes, then restart next day + 3 writes" : ", then restart + 3 writes"), "restart", extra);
+                        importTimes();
+                    }
                 }
                 // 3. single failures of rename / link / unlink / creation of the compressed file
                 for (long k = 1; k <= M; k++) {
@@ -933,7 +988,7 @@ void modeCrash(const std::vector<Config> &cfgs, int depth, int shard, int nshard
         }
     }
     sum.states = (long long)crashSigs.size();
-    for (auto &s : crashSigs) sum.outcomes.insert(s);
+    sum.counters["distinct_crash_directory_states"] = (long long)crashSigs.size();
 }
 
 } // namespace
@@ -964,6 +1019,23 @@ int main(int argc, char **argv)
         for (auto &s : QString::fromLatin1(vx::argStr(argc, argv, "--sizes", "1,2,10")).split(',', Qt::SkipEmptyParts)) sizes.push_back(s.toLong());
         sum.bound = std::to_string(sizes.size()) + " sizes x " + std::to_string(vx::argInt(argc, argv, "--gens", 6)) + " generators + records <= 2 symbols over 12";
         modeGz(sizes, vx::argInt(argc, argv, "--gens", 6), shard, nshards, vx::argInt(argc, argv, "--alpha", 1), sum);
+    } else if (mode == "gzkeep") { // one case of the C08 family, directory kept for an external decoder
+        std::string keep = vx::argStr(argc, argv, "--keep", "");
+        long n = atol(vx::argStr(argc, argv, "--sizes", "10"));
+        int gen = vx::argInt(argc, argv, "--gen", 0);
+        Config cfg; cfg.L = 0; cfg.N = 0; cfg.opts = 1 | 4; cfg.decoys = false;
+        {
+            World w; w.start(cfg, keep);
+            QString text = genContent(gen, n - 1);
+            w.writeText(text); w.closeSink(); w.open(); w.writeText(QStringLiteral("next")); w.closeSink();
+            vdev::preMutate = nullptr; vdev::active = false;
+            QByteArray e = text.toUtf8() + "\n";
+            putFile(keep + "/expected.bin", std::string(e.constData(), (size_t)e.size()));
+        }
+        sum.cases = 1; sum.states = 1; sum.transitions = 2;
+        sum.print();
+        rmdir(g_dir.c_str());
+        return 0;
     } else if (mode == "crash") {
         sum.bound = "prefix histories <= " + std::to_string(depth) + " + final write; every mutating call = crash point; single failures of rename/link/unlink/create";
         modeCrash(cfgs, depth, shard, nshards, sum);
